@@ -56,6 +56,19 @@ def rebind(pairs):
                 setattr(mod, attr, old)
 
 
+class ThreadingProxy(object):
+    """`threading` as seen by playback.tape_recorder: Lock() gives a lock the simulator can schedule around,
+    everything else (threading.local in particular) is the real module."""
+
+    def Lock(self):
+        from .sim import HybridLock
+        return HybridLock()
+
+    def __getattr__(self, name):
+        import threading
+        return getattr(threading, name)
+
+
 class TapeRandom(object):
     """Stands in for the global `random` module functions the repository uses (choice, shuffle)."""
 
@@ -127,6 +140,7 @@ def deterministic(tape=None, extra=(), clock=None):
     counter = UUIDCounter()
     clock = clock or VClock()
     pairs = [(m, 'uuid', counter) for m in UUID_MODULES] + clock_pairs(clock) + list(extra)
+    pairs.append(('playback.tape_recorder', 'threading', ThreadingProxy()))
     state = random.getstate()
     random.seed(12345)
     if tape is not None:
